@@ -11,6 +11,7 @@ import (
 	"github.com/datastax/go-cassandra-native-protocol/frame"
 	"github.com/datastax/go-cassandra-native-protocol/message"
 	"github.com/datastax/go-cassandra-native-protocol/primitive"
+	"verif/simrt"
 )
 
 // C16 — connections terminate cleanly on close, peer loss and timeout (DESIGN.md §5 C16).
@@ -42,6 +43,15 @@ type c16Task struct {
 	name   string
 	inCall string
 	done   bool
+	sim    *simrt.Task
+}
+
+// stuckAt names the repository function in which the task is stuck (stable class discriminator).
+func (t *c16Task) stuckAt() string {
+	if t.sim != nil && !strings.HasPrefix(t.sim.At, "h:") && t.sim.At != "spawn" {
+		return SiteFunc(t.sim.At)
+	}
+	return t.inCall
 }
 
 type c16State struct {
@@ -68,6 +78,9 @@ func (st *c16State) task(name string) *c16Task {
 
 // call brackets a library call so that a task stuck inside it can be named at quiescence.
 func (t *c16Task) call(r *Run, name string, f func()) {
+	if t.sim == nil {
+		t.sim = simrt.CurrentTask()
+	}
 	t.inCall = name
 	f()
 	r.Yield("ret:" + name)
@@ -384,7 +397,7 @@ func c16Term(r *Run) {
 			if strings.HasPrefix(t.inCall, "wait ") && nBlocked > 0 {
 				continue // derivative of another blocked task
 			}
-			r.Violate(P, "returns", "blocked:"+t.inCall, "task %s is still blocked in %q at quiescence (fault %s@%d)", t.name, t.inCall, fault, crashStep)
+			r.Violate(P, "returns", "blocked:"+t.stuckAt(), "task %s is still blocked in %q (last seen at %s) at quiescence (fault %s@%d)", t.name, t.inCall, t.stuckAt(), fault, crashStep)
 		}
 	}
 	// every request must be complete; evaluated by a checker task because the accessors take locks
@@ -439,9 +452,17 @@ func c16Term(r *Run) {
 			}
 		}
 	}
-	// goroutine leaks: tasks spawned by repository code must all be gone
+	// goroutine leaks: once every Close has returned (all harness tasks done), tasks spawned by
+	// repository code must all be gone. If a harness task is stuck the leak would only be a
+	// consequence of that (already reported) failure.
+	allDone := true
+	for _, t := range st.tasks {
+		if !t.done {
+			allDone = false
+		}
+	}
 	for _, t := range r.S.Live() {
-		if t.Repo {
+		if t.Repo && allDone {
 			r.Violate(P, "no-leak", fmt.Sprintf("leak:%s@%s", SiteFunc(t.Spawn), SiteFunc(t.At)),
 				"goroutine spawned at %s is still alive at quiescence, last seen at %s (state %d)", t.Spawn, t.At, t.State)
 		}
